@@ -2512,6 +2512,16 @@ func (t *tr2) regionDecl(fd *ast.FuncDecl, name string, marker string) string {
 		locals = []loc{{"newItems", "omap"}, {"otherHeads", "omap"}, {"size", "int"}}
 		ps = append(ps, "(valuesOf : List Entry → List Entry → List Entry)")
 		names = append(names, "valuesOf")
+	case "append.publish":
+		// the tail of Append: what a successful append does to the log once the entry is created and authorised
+		if _, ok := fd.Body.List[n-1].(*ast.ReturnStmt); !ok {
+			return t.fail(fd, "region does not end in the function's return")
+		}
+		if rs := fd.Body.List[n-1].(*ast.ReturnStmt); len(rs.Results) != 2 || src(t.fset, rs.Results[0]) != "e" || !isNil(rs.Results[1]) {
+			return t.fail(fd, "the tail of Append must return the created entry")
+		}
+		fields = []fld{{r + ".Entries", "omap"}, {r + ".Next", "set"}, {r + ".heads", "omap"}}
+		locals = []loc{{"e", "entry"}, {"next", "cids"}}
 	case "append.locked":
 		// the plan of Append: from the lock to the creation of the entry; results = predecessors, references, clock
 		end = -1
@@ -2954,7 +2964,7 @@ func renderSlices(repo string) map[string]string {
 		{"Fetcher", []job{{"entry/fetcher.go", []string{"updateClock", "addNextEntry", "#admission"}}}},
 		{"JoinTail", []job{{"log.go", []string{"Join@join.publish"}}}},
 		{"Iterator", []job{{"log.go", []string{"sortedHeads", "Iterator"}}}},
-		{"Append", []job{{"log.go", []string{"getEveryPow2", "Append@append.locked"}}}},
+		{"Append", []job{{"log.go", []string{"getEveryPow2", "Append@append.locked", "Append@append.publish"}}}},
 		{"Views", []job{{"log.go", []string{"values", "ToJSONLog", "ToSnapshot"}}}},
 	}
 	out := map[string]string{}
